@@ -5,11 +5,11 @@
    our own. *)
 Require Extraction.
 Require Import ExtrOcamlBasic ExtrOcamlZBigInt ExtrOcamlNatBigInt.
-From LZ4V Require Import Spec.BlockSpec Spec.BlockFast Spec.XXH32 Spec.FrameSpec.
-From LZ4V Require Import Gen.Consts Model.Mem Model.Dec Model.DecApi Model.Fast Model.FastApi.
+From LZ4V Require Import Spec.BlockSpec Spec.BlockFast Spec.BlockMem Spec.XXH32 Spec.FrameSpec.
+From LZ4V Require Import Gen.Consts Model.Mem Model.Dec Model.DecApi Model.Fast Model.FastApi Model.HcEmit.
 Extraction Language OCaml.
 Extraction "lz4v.ml"
-  spec_decode_fast strict_valid_fast spec_decode strict_valid parse_block encode_block
+  spec_decode_fast strict_valid_fast spec_decode_mem strict_valid_mem spec_decode strict_valid parse_block encode_block
   xxh32 frame_decode stream_decode header_bytes parse_desc
   mem_of_list store_list load_list get dec_generic decompress_usingDict
-  ctx_init compress_fast_extState compress_fast_extState_fastReset compress_destSize compressBound.
+  ctx_init compress_fast_extState compress_fast_extState_fastReset compress_destSize compress_destSize_internal compressBound encodeSequence.
